@@ -16,10 +16,12 @@ CONSTANTS
   CounterFirst = TRUE
   FreshPipe = TRUE
   ResetClosed = TRUE
+  BlockAfterClose = TRUE
 INVARIANT TypeOK
 INVARIANT Inv_C05_Stream
 INVARIANT Inv_C05_Closed
 INVARIANT Inv_C05_Call
+INVARIANT Inv_C05_End
 INVARIANT Inv_C17_Live
 INVARIANT Inv_C17_Equivalent
 INVARIANT Inv_C17_NewIdentity
